@@ -105,6 +105,9 @@ func valFromJSONFns(j any, fnv map[string]val) val {
 		}
 		return vMap(kvs...)
 	}
+	if _, ok := m["st"].(string); ok {
+		return valFromJSON(j)
+	}
 	if ty, ok := m["sl"].(string); ok && ty == "[]interface {}" {
 		xs, _ := m["xs"].([]any)
 		vs := make([]val, len(xs))
